@@ -26,6 +26,13 @@ func (sc snappyCodec) Encode(src, dst []byte) ([]byte, uint32) {
 }
 
 func (sc snappyCodec) Decode(src, dst []byte) ([]byte, uint32, error) {
+	// snappy.Decode allocates the decoded length announced in the chunk
+	// before looking at the data. Snappy cannot expand a chunk more than
+	// about 21 times (a 3 byte copy element yields at most 64 bytes), so a
+	// larger announcement is corrupt: reject it instead of allocating for it.
+	if n, err := snappy.DecodedLen(src); err == nil && n > 32*len(src)+64 {
+		return nil, 0, snappy.ErrCorrupt
+	}
 	chunk, err := snappy.Decode(dst[len(dst):cap(dst)], src)
 	if err != nil {
 		return nil, 0, err
